@@ -355,6 +355,18 @@ Definition range_default_unsigned := {| rmin := Some 0; rmax := None; rext := fa
 Definition as_int (v : option aval) : option Z := match v with Some (VInt z) => Some z | _ => None end.
 Definition set_size (r : range) := {| rmin := rmin r; rmax := rmax r; rext := rext r; rsize := true |}.
 
+(* trailing_extension_marker: the marker the lexer attached to the last element of the set *)
+Fixpoint trailing_marker (r : eos) : bool :=
+  match r with
+  | SetOp _ _ r' => trailing_marker r'
+  | El (Single _ x) => x
+  | El (Range _ _ x) => x
+  | El _ => false
+  end.
+Definition mark_ext (t : bool) (r : range) : range :=
+  if t && match rmin r, rmax r with None, None => false | _, _ => true end
+  then {| rmin := rmin r; rmax := rmax r; rext := true; rsize := rsize r |} else r.
+
 (* TryFrom<Option<&SubtypeElements>> *)
 Fixpoint range_of_elem (fuel : nat) (e : option elem) : res range :=
   match fuel with
@@ -367,7 +379,7 @@ Fixpoint range_of_elem (fuel : nat) (e : option elem) : res range :=
       | Some (Range lo hi x) => Ok {| rmin := as_int lo; rmax := as_int hi; rext := x; rsize := false |}
       | Some (Size (El e')) => bind (range_of_elem fuel' (Some e')) (fun r => Ok (set_size r))
       | Some (Size (SetOp b o r)) =>
-          bind (fold fuel' b o r None true) (fun fe => bind (range_of_elem fuel' fe) (fun r => Ok (set_size r)))
+          bind (fold fuel' b o r None true) (fun fe => bind (range_of_elem fuel' fe) (fun v => Ok (mark_ext (trailing_marker r) (set_size v))))
       | Some Contained => Ok range_default      (* the subtype's own constraints: none PER-visible in this model *)
       | Some NotPV => Panic                     (* unreachable!() *)
       end
@@ -402,10 +414,11 @@ Definition range_of_constraint (fuel : nat) (c : constraint) : res range :=
         | SetOp b o r =>
             bind (fold fuel b o r None true) (fun fe =>
             bind (range_of_elem fuel fe) (fun v =>
-            Ok (match o with
-                | Inter => if is_size_elem b || match r with El (Size _) => true | _ => false end then set_size v else v
-                | _ => v
-                end)))
+            Ok (mark_ext (trailing_marker r)
+                  (match o with
+                   | Inter => if is_size_elem b || match r with El (Size _) => true | _ => false end then set_size v else v
+                   | _ => v
+                   end))))
         end) (fun pv =>
   Ok (if cext c && match rmin pv, rmax pv with None, None => false | _, _ => true end
       then {| rmin := rmin pv; rmax := rmax pv; rext := true; rsize := rsize pv |} else pv)).
